@@ -152,6 +152,19 @@ void sess_wire_append(Sess* s, const void* b, size_t n) {
     s->wire_size += n;
 }
 
+/* guarded-buffer cache: call histories repeat the same sizes thousands of times; reusing the exactly-sized guarded
+ * buffer keeps the canaries/poison semantics (checked after every call) without an allocation per call */
+typedef struct { void* p; size_t n; } BufSlot;
+static BufSlot g_slots[8];
+void* sess_buf_get(int slot, size_t n) {
+    BufSlot* b = &g_slots[slot & 7];
+    if (b->p && b->n == n) return b->p;
+    if (b->p) sim_buf_free(b->p);
+    b->p = sim_buf_new(n); b->n = n;
+    return b->p;
+}
+void sess_buf_cache_drop(void) { int i; for (i = 0; i < 8; i++) { if (g_slots[i].p) sim_buf_free(g_slots[i].p); g_slots[i].p = NULL; g_slots[i].n = 0; } }
+
 /* ---------------- compression histories ---------------- */
 void sess_gen_chist(Plan* p, Rng* r, size_t in_size, int multi_frame) {
     int nops = (int)rng_range(r, 0, 14), i;
@@ -180,16 +193,18 @@ static size_t one_ccall(CH* h, size_t in_len, size_t out_cap, int dir) {
     Sess* s = h->s; uint8_t* src; uint8_t* dst; ZSTD_inBuffer in; ZSTD_outBuffer out; size_t ret; const char* e;
     if (h->ending) { dir = 2; in_len = h->frozen_end - s->in_pos; }
     if (in_len > s->in_size - s->in_pos) in_len = s->in_size - s->in_pos;
-    src = (uint8_t*)sim_buf_new(in_len); if (in_len) memcpy(src, s->in + s->in_pos, in_len);
-    dst = (uint8_t*)sim_buf_new(out_cap);
+    /* slices up to 64 KiB are copied into an exactly-sized guarded buffer (over-read detection); larger ones are
+     * presented in place, otherwise a tiny output capacity makes the copying quadratic */
+    if (in_len <= 65536) { src = (uint8_t*)sess_buf_get(0, in_len); if (in_len) memcpy(src, s->in + s->in_pos, in_len); } else src = s->in + s->in_pos;
+    dst = (uint8_t*)sess_buf_get(1, out_cap);
     in.src = src; in.size = in_len; in.pos = 0; out.dst = dst; out.size = out_cap; out.pos = 0;
     ret = ZSTD_compressStream2(h->c, &out, &in, (ZSTD_EndDirective)dir);
     s->ncalls++;
     if (in.pos > in.size || out.pos > out.size) sim_violation("cursor_overrun", "compressStream2 moved a cursor beyond its limit: in %zu/%zu out %zu/%zu", in.pos, in.size, out.pos, out.size);
     if ((e = sim_buf_check(dst)) != NULL) sim_violation("dst_overrun", "compressStream2(out_cap=%zu): %s", out_cap, e);
-    if ((e = sim_buf_check(src)) != NULL) sim_violation("src_overrun", "compressStream2: %s", e);
+    if (in_len <= 65536 && (e = sim_buf_check(src)) != NULL) sim_violation("src_overrun", "compressStream2: %s", e);
     if (in.src != src || in.size != in_len || out.dst != dst || out.size != out_cap) sim_violation("buffer_desc_modified", "compressStream2 modified buffer descriptors");
-    if (ZSTD_isError(ret)) { sim_buf_free(src); sim_buf_free(dst); return ret; }
+    if (ZSTD_isError(ret)) return ret;
     sess_wire_append(s, dst, out.pos);
     if (in_len > 0 && out_cap > 0 && in.pos == 0 && out.pos == 0 && !(dir != 0 && ret == 0)) {
         s->noprogress_calls++;
@@ -212,7 +227,6 @@ static size_t one_ccall(CH* h, size_t in_len, size_t out_cap, int dir) {
             if (s->on_frame_complete) s->on_frame_complete(s, s->ud);
         } else if (!h->ending) { h->ending = 1; h->frozen_end = s->in_pos + (in_len - in.pos); }
     }
-    sim_buf_free(src); sim_buf_free(dst);
     return ret;
 }
 
@@ -281,18 +295,17 @@ static void dh_frame_ends(DH* d) {
 static int one_dcall(DH* d, ZSTD_DCtx* dctx, DecResult* r, size_t in_len, size_t out_cap) {
     uint8_t* src; uint8_t* dst; ZSTD_inBuffer in; ZSTD_outBuffer out; size_t ret; const char* e; int i;
     if (in_len > d->wire_size - d->pos) in_len = d->wire_size - d->pos;
-    src = (uint8_t*)sim_buf_new(in_len); if (in_len) memcpy(src, d->wire + d->pos, in_len);
-    dst = (uint8_t*)sim_buf_new(out_cap);
+    if (in_len <= 65536) { src = (uint8_t*)sess_buf_get(2, in_len); if (in_len) memcpy(src, d->wire + d->pos, in_len); } else src = (uint8_t*)d->wire + d->pos;
+    dst = (uint8_t*)sess_buf_get(3, out_cap);
     in.src = src; in.size = in_len; in.pos = 0; out.dst = dst; out.size = out_cap; out.pos = 0;
     ret = ZSTD_decompressStream(dctx, &out, &in);
     r->ncalls++;
     if (in.pos > in.size || out.pos > out.size) sim_violation("cursor_overrun", "decompressStream moved a cursor beyond its limit: in %zu/%zu out %zu/%zu", in.pos, in.size, out.pos, out.size);
     if ((e = sim_buf_check(dst)) != NULL) sim_violation("dst_overrun", "decompressStream(out_cap=%zu): %s", out_cap, e);
-    if ((e = sim_buf_check(src)) != NULL) sim_violation("src_overrun", "decompressStream: %s", e);
+    if (in_len <= 65536 && (e = sim_buf_check(src)) != NULL) sim_violation("src_overrun", "decompressStream: %s", e);
     if (r->out_size + out.pos > r->out_cap) { r->out_cap = (r->out_size + out.pos) * 2 + 4096; r->out = (uint8_t*)realloc(r->out, r->out_cap); }
     if (out.pos) memcpy(r->out + r->out_size, dst, out.pos);
     r->out_size += out.pos; d->pos += in.pos; r->consumed = d->pos;
-    sim_buf_free(src); sim_buf_free(dst);
     if (ZSTD_isError(ret)) { r->err = ret; return -1; }
     sim_event("ds in=%zu/%zu out=%zu/%zu ret=%zu", in.pos, in_len, out.pos, out_cap, ret);
     if (ret == 0) {
